@@ -262,9 +262,20 @@ class _Table:
                     server.run()
             finally:
                 # Server.run is over: what do its threads look like right now?
-                self.at_main_return['seats_done'] = all(
-                    pt._baton.state == 'done' for pt in world.player_threads
-                    if getattr(pt.connection, 'port', port) == port)
+                mine = [pt for pt in world.player_threads
+                        if getattr(pt.connection, 'port', port) == port]
+                self.at_main_return['seats_done'] = all(pt._baton.state == 'done' for pt in mine)
+                if cfg.get('exit_after_run'):
+                    # as the command line does: the process ends when run()
+                    # returns - daemon threads still alive die with it and the
+                    # operating system closes their connections
+                    for pt in mine:
+                        if pt._baton.state != 'done':
+                            sched.kill(pt._baton)
+                            try:
+                                pt.connection.close()
+                            except Exception:  # noqa
+                                pass
         sched.spawn(self.main_name(), main_fn)
         teams = cfg.get('teams', ('teamNS', 'teamEW'))
         requesters = cfg.get('requesters')
